@@ -46,7 +46,7 @@ structure J where
   ow : List (String × Option String)   -- own writes of the current tx in order (ghost, for the write list)
   keys : List String
 
-def jinit : J := ⟨⟨fun _ => "", fun _ => none⟩, [], []⟩
+def jinit : J := ⟨⟨fun _ => "", fun _ => none, []⟩, [], []⟩
 
 def lastWins (ow : List (String × Option String)) : List String :=
   let ks := ow.foldl (fun acc kv => insertSorted kv.1 acc) []
@@ -62,7 +62,7 @@ def jstep (j : J) (ws : List String) : J × String :=
   match ws with
   | ["reset", kvs, "=>", _] =>
     let l := parseKVs kvs
-    (⟨⟨ofKVs l, fun _ => none⟩, [], l.foldl (fun ks kv => insertSorted kv.1 ks) []⟩, "pass")
+    (⟨⟨ofKVs l, fun _ => none, []⟩, [], l.foldl (fun ks kv => insertSorted kv.1 ks) []⟩, "pass")
   | ["tx", "=>", _] => (⟨j.m.discard, [], j.keys⟩, "pass")
   | ["tdiscard", "=>", _] => (⟨j.m.discard, [], j.keys⟩, "pass")
   | ["tget", k, "=>", o] =>
